@@ -121,7 +121,8 @@ S_AsyncDone == AsyncDone /\ Silent
 S_MainJoinSync == MainJoinSync /\ Silent
 T_merge_final == /\ Is("merge") /\ Ev.side = "final" /\ MainJoinAsync
                  /\ SameSeqMap(report', Ev.files) /\ Consume
-S_MainJoinAsync == Len(AsyncOrder) = 0 /\ MainJoinAsync /\ Silent
+\* silent when there is nothing to log: no async validators at all, or the async side failed
+S_MainJoinAsync == (Len(AsyncOrder) = 0 \/ asyncRes = "err") /\ MainJoinAsync /\ Silent
 T_report == /\ Is("report") /\ final = "report"
             /\ SameBag(report, Ev.files) /\ NonEmptyFiles(report) # {}
             /\ Ev.has_error = HasErrorSeverity(report)
